@@ -80,7 +80,6 @@ def Cmp.and : Cmp → Cmp → Cmp
 
 def cmpOutcome (r : R DVal) (impl : Json) : Cmp :=
   if outcomeAgrees r impl then .agree
-  else if (match r with | .ok d => dvalOpaque d | _ => false) then .na      -- the codec may legitimately fail (C14 / C15)
   else .differ s!"expected {(outcomeJson r).compress.take 300}, implementation {impl.compress.take 300}"
 
 def seqOutcome (r : R (List DVal)) : R DVal := r.map fun xs => .seq (DVals.ofList xs)
@@ -134,8 +133,7 @@ an exact representation must fail is C05's content and has known findings there)
 def cmpClaim (c : Claim) (o : Json) : Cmp :=
   match c with
   | .ok (some d) =>
-    if dvalOpaque d then .na
-    else match o.getObjVal? "ok" with
+    match o.getObjVal? "ok" with
       | .ok j => if dvalMatches d j then .agree
                  else .differ s!"rows say {(dvalToJson d).compress.take 300}, implementation {j.compress.take 300}"
       | _ => .differ s!"rows say {(dvalToJson d).compress.take 300}, implementation {o.compress.take 300}"
